@@ -338,6 +338,9 @@ func checkC05(r *Run) {
 	r.Floor("send-wakeup", nSel, 2, "selects in send")
 	c05Rerror(r, send)
 
+	// each reply frame is a fresh object handed to exactly one caller
+	checkFreshFrame(r, reader, "fresh-frame")
+
 	// (8) single writer / reader
 	for _, fn := range p.FuncsOfPkg("p9p") {
 		root := fn
